@@ -327,8 +327,8 @@ Proof.
     destruct (substvar_loop [] (adv (adv j))) as [[p1 r1]| |] eqn:SV; [|split; discriminate|exfalso; eapply NF; eauto].
     split; [discriminate|]. intros rel' r E. inversion E; subst.
     pose proof (substvar_len _ _ _ _ SV). pose proof (adv_len (adv j)). pose proof (adv_len_lt j Jne). split; lia.
-  - assert (Hf1 : (len j + 1 < f)%nat) by lia. destruct (possi_loop_fuel f fresh rel j Hf1) as [A B]. split; [exact A|].
-    intros rel' r E. destruct (B _ _ E) as [B1 B2]. split; [lia|]. intros Hn.
+  - assert (Hf1 : (len j + 1 < f)%nat) by lia. destruct (possi_loop_fuel f fresh rel j Hf1) as [A B]. split; [now apply guard_nofuel|].
+    intros rel' r E. apply guard_ok_inv in E. destruct (B _ _ E) as [B1 B2]. split; [lia|]. intros Hn.
     destruct (is_ws (peek i)) eqn:W; [specialize (Ls eq_refl); lia|].
     subst j. rewrite (eat_ws_id_local i W) in *. now apply B2.
 Qed.
